@@ -22,7 +22,7 @@ type c33Case struct {
 
 func c33(c *vc.Ctx) {
 	depth := vc.Pick(c, 3, 4)
-	bashDepth := vc.Pick(c, 2, 4) // quick: the depth-3 histories are replayed in bash by the thorough tier only
+	bashDepth := vc.Pick(c, 2, 4)                   // quick: the depth-3 histories are replayed in bash by the thorough tier only
 	if s := os.Getenv("VERIF_C33_DEPTH"); s != "" { // development aid
 		fmt.Sscan(s, &depth)
 		bashDepth = depth
